@@ -1,0 +1,70 @@
+//go:build verif
+
+package ftp
+
+// Contracts for FTP authentication and the authentication gate (property C12), checked by /verif/govc.
+// Comment-only file: it adds nothing to any build.
+//
+//@ func (*User).CheckPasswd
+//@   check safety, frame
+//@   ensures result1 == nil
+//@   ensures [decision] result0 <==> (haskey(u.users, name) && u.users[name] == password)
+//@   modifies nothing
+//
+// PASS: the session becomes the requested user exactly when the authenticator accepts.
+//@ func (commandPass).Execute
+//@   ensures [accept] authok(conn.server.Auth, old(conn.reqUser), param) ==> conn.user == old(conn.reqUser) || conn.user == old(conn.user)
+//@   ensures [reject] !authok(conn.server.Auth, old(conn.reqUser), param) ==> conn.user == old(conn.user)
+//@   modifies *
+//
+//@ func (commandUser).Execute
+//@   ensures conn.reqUser == param && conn.user == old(conn.user)
+//@   modifies *
+//
+// The dispatcher: a command that requires authentication is never executed on a session that has
+// not logged in (reqauth is the command's RequireAuth answer, see the table below).
+//@ func (*Conn).receiveLine
+//@   callpre Command.Execute: !(reqauth(recv) && conn.user == "")
+//@   modifies *
+//
+// The gate table: every command that touches files or directories requires authentication.
+//@ func (commandAppe).RequireAuth
+//@   ensures result
+//@ func (commandCdup).RequireAuth
+//@   ensures result
+//@ func (commandCwd).RequireAuth
+//@   ensures result
+//@ func (commandDele).RequireAuth
+//@   ensures result
+//@ func (commandList).RequireAuth
+//@   ensures result
+//@ func (commandNlst).RequireAuth
+//@   ensures result
+//@ func (commandMdtm).RequireAuth
+//@   ensures result
+//@ func (commandMkd).RequireAuth
+//@   ensures result
+//@ func (commandPwd).RequireAuth
+//@   ensures result
+//@ func (commandRetr).RequireAuth
+//@   ensures result
+//@ func (commandRnfr).RequireAuth
+//@   ensures result
+//@ func (commandRnto).RequireAuth
+//@   ensures result
+//@ func (commandRmd).RequireAuth
+//@   ensures result
+//@ func (commandSize).RequireAuth
+//@   ensures result
+//@ func (commandStor).RequireAuth
+//@   ensures result
+//@ func (commandPasv).RequireAuth
+//@   ensures result
+//@ func (commandPort).RequireAuth
+//@   ensures result
+//@ func (commandEprt).RequireAuth
+//@   ensures result
+//@ func (commandEpsv).RequireAuth
+//@   ensures result
+//@ func (commandRest).RequireAuth
+//@   ensures result
